@@ -468,7 +468,8 @@ struct aligned_array : public array_base<BaseType> {
         }
 
         npy_intp stride(npy_intp i) const {
-            return this->raw_stride(i)/sizeof(BaseType);
+            // signed division: strides can be negative
+            return this->raw_stride(i)/npy_intp(sizeof(BaseType));
         }
 
         bool is_carray() const { return is_carray_; }
